@@ -8,6 +8,8 @@ use arrow_array::RecordBatch;
 pub struct WriteBuffer {
     /// Accumulated batches
     batches: Vec<RecordBatch>,
+    /// WAL sequence number of each buffered batch (parallel to `batches`, 0 = not in the WAL)
+    seqs: Vec<u64>,
     /// Total row count
     row_count: usize,
     /// Total size in bytes (approximate)
@@ -19,6 +21,7 @@ impl WriteBuffer {
     pub fn new() -> Self {
         Self {
             batches: Vec::new(),
+            seqs: Vec::new(),
             row_count: 0,
             size_bytes: 0,
         }
@@ -26,10 +29,16 @@ impl WriteBuffer {
 
     /// Append a record batch to the buffer
     pub fn append(&mut self, batch: RecordBatch) -> Result<()> {
+        self.append_with_seq(batch, 0)
+    }
+
+    /// Append a record batch together with the WAL sequence number it was logged under
+    pub fn append_with_seq(&mut self, batch: RecordBatch, seq: u64) -> Result<()> {
         let rows = batch.num_rows();
         let size = batch.get_array_memory_size();
 
         self.batches.push(batch);
+        self.seqs.push(seq);
         self.row_count += rows;
         self.size_bytes += size;
 
@@ -46,9 +55,30 @@ impl WriteBuffer {
 
     /// Take all batches from the buffer, leaving it empty
     pub fn take(&mut self) -> Vec<RecordBatch> {
+        self.take_with_seqs().0
+    }
+
+    /// Take all batches and their WAL sequence numbers, leaving the buffer empty
+    pub fn take_with_seqs(&mut self) -> (Vec<RecordBatch>, Vec<u64>) {
         self.row_count = 0;
         self.size_bytes = 0;
-        std::mem::take(&mut self.batches)
+        (
+            std::mem::take(&mut self.batches),
+            std::mem::take(&mut self.seqs),
+        )
+    }
+
+    /// Put batches back in front of the buffered ones (after a failed flush)
+    pub fn prepend(&mut self, mut batches: Vec<RecordBatch>, mut seqs: Vec<u64>) {
+        self.row_count += batches.iter().map(|b| b.num_rows()).sum::<usize>();
+        self.size_bytes += batches
+            .iter()
+            .map(|b| b.get_array_memory_size())
+            .sum::<usize>();
+        batches.append(&mut self.batches);
+        seqs.append(&mut self.seqs);
+        self.batches = batches;
+        self.seqs = seqs;
     }
 
     /// Check if the buffer is empty
@@ -74,6 +104,7 @@ impl WriteBuffer {
     /// Clear the buffer
     pub fn clear(&mut self) {
         self.batches.clear();
+        self.seqs.clear();
         self.row_count = 0;
         self.size_bytes = 0;
     }
